@@ -32,7 +32,7 @@ def obligations(tier, seed):
                 pre = ['k == %d' % k, 'len(A) == %d and len(B) == %d and len(C) == %d' % (L, L, L),
                        '"." not in A and "." not in B and "." not in C', 'rl == %s' % rl, 'rg == %s' % rg]
                 if skeletons.HOIST_TEMPLATES[k][0] in ('one_true_float', 'none_true_bytes'):
-                    pre.append(('A == %r and B == %r' % ('a' * L, 'b' * L)) if tier == 'quick' else ('B == %r' % ('b' * L)))
+                    pre.append(('A == %r and B == %r' % ('a' * L, 'b' * L)) if tier == 'quick' else ('B == %r and C == %r' % ('b' * L, 'c' * L)))
                     if tier == 'quick' and skeletons.HOIST_TEMPLATES[k][0] == 'one_true_float':
                         pre.append('C == %r' % ('c' * L))     # 28 literals of 6 hoistable values: concrete names in the quick tier     # many hoisted values: pin two holes in the quick tier
                 if name_k.startswith('folded_'):
